@@ -14,7 +14,7 @@ class World(S.WorldComponent):
     theorems = ["abandon_whole_message", "prune_keeps_complete", "reliable_unaffected"]
     mix = [("mixed-pr", False, 4), ("mixed-pr", True, 1)]
     quick = (32, 300)
-    thorough = (600, 600)
+    thorough = (300, 600)
     oracles = [S.oracle_no_crash, S.oracle_c06, S.oracle_c01, S.oracle_c02, S.oracle_recovers]
 
 
